@@ -143,6 +143,8 @@ def scan_forbidden() -> list[str]:
         txt = p.read_text()
         # strip comments (non-nested is enough for our sources)
         txt2 = re.sub(r"\(\*.*?\*\)", "", txt, flags=re.S)
+        # string literals cannot declare anything: blank them ("" escapes a quote)
+        txt2 = re.sub(r'"(?:[^"]|"")*"', lambda m: '"' + " " * (len(m.group(0)) - 2) + '"' if "\n" not in m.group(0) else m.group(0), txt2)
         in_section = 0
         for ln, line in enumerate(txt2.splitlines(), 1):
             if re.match(r"\s*Section\b", line):
